@@ -158,6 +158,8 @@ impl Network {
         if let Some(peer) = peers.find_peer_by_index_mut(peer_index) {
             debug!("static peer : {:?} connected", peer_index);
             peer.peer_status = PeerStatus::Connecting;
+            // a challenge issued on an earlier connection of this index is not outstanding on this one
+            peer.challenge_for_peer = None;
             peer.ip_address = ip_addr;
         } else {
             debug!("new peer added : {:?}", peer_index);
